@@ -80,6 +80,7 @@ def items(tier: str, seed: int) -> list[dict]:
         add(fault={"stage": "check", "kind": kind, "path": "/b", "k": 1}, e=0)
     add(doc="link", phases=["stateful"], workers=1, max_examples=2, fault={"stage": "check", "kind": "RuntimeError", "path": "/users/", "k": 1})
     add(doc="link", phases=["stateful"], workers=1, max_examples=2, fault={"stage": "check", "kind": "KeyboardInterrupt", "path": "/users/", "k": 1})
+    _review_round_2(add, tier)
     if tier == "thorough":
         for behaviour in ("ok", "fail:/b", "all500"):
             add(workers=3, behaviour=behaviour, max_failures=1)
@@ -87,6 +88,47 @@ def items(tier: str, seed: int) -> list[dict]:
         add(max_examples=2, behaviour="fail:/b", max_failures=1)
         add(doc="link", phases=["fuzzing", "stateful"], workers=2, behaviour="ok")
     return out
+
+
+def _review_round_2(add: Any, tier: str) -> None:
+    """Histories / configurations / faults the property quantifies over that the first version left out.  One worker (its
+    schedules against the consumer, every stop / Ctrl-C point) unless the shape is about two workers."""
+    all_unit = ["examples", "coverage", "fuzzing"]
+    # -- documents: ONE operation; two workers of which one finds nothing to do; every phase of the engine in sequence
+    add(doc="one_b", behaviour="fail:/b")
+    add(doc="one_a", phases=all_unit, workers=1, behaviour="fail:/a")
+    # -- a defect of the document: the engine itself announces (and closes) a scenario for the unusable operation / reports
+    #    an error outside any scenario for the unusable path item; also while the failure limit is reached by that very error
+    add(doc="unit2_opbroken_mid", workers=2, e=0)
+    add(doc="unit2_opbroken_mid", workers=1, max_failures=1)
+    add(doc="unit2_broken_mid", workers=1)
+    add(doc="hdr_example_bad_mid", phases=["examples", "fuzzing"], workers=1, e=0)
+    # -- phases: one that is enabled but not applicable (stateful without links); all four; later phases skipped by the limit
+    add(doc="unit2", phases=["fuzzing", "stateful"], workers=1)
+    add(doc="link", phases=[*all_unit, "stateful"], workers=1, behaviour="all500", max_failures=1, e=0)
+    add(doc="link", phases=[*all_unit, "stateful"], workers=1, behaviour="fail_linked_user", max_failures=1, e=0)
+    add(doc="link", phases=["stateful"], workers=1, max_examples=1, steps=1)
+    add(doc="one_b", phases=["examples"], workers=1)                       # a phase in which every scenario is skipped
+    add(doc="link", phases=["coverage", "stateful"], workers=1, e=0)        # a subset with a gap between its phases
+    # -- API behaviours: which response fails; continue_on_failure / unique inputs with one worker and several phases
+    add(doc="unit2", workers=1, behaviour="nth:/a:1", max_examples=3, cof=True, e=0)
+    add(doc="unit2", workers=1, behaviour="even:/a", max_examples=4, cof=True, max_failures=1)
+    add(doc="unit2", phases=["coverage", "fuzzing"], workers=1, behaviour="fail:/b", unique=True, e=0)
+    # -- single faults at the other extension points (hooks), as exceptions and as KeyboardInterrupt raised by user code
+    for stage, kind, workers in (("iterate", "RuntimeError", 2), ("iterate", "KeyboardInterrupt", 1), ("construct", "KeyboardInterrupt", 2),
+                                 ("generate", "RuntimeError", 1), ("before_call", "KeyboardInterrupt", 1), ("after_call", "RuntimeError", 1),
+                                 ("transport", "KeyboardInterrupt", 1)):
+        # (the construct-stage hook runs where explicit examples are added: the examples phase)
+        add(doc="unit2", workers=workers, e=0, fault={"stage": stage, "kind": kind, "path": "/a", "k": 1},
+            phases=["examples"] if stage == "construct" else ["fuzzing"])
+    # ... in the examples phase (later phases follow), and on the LAST request of an operation
+    add(doc="unit2", phases=all_unit, workers=1, e=0, fault={"stage": "check", "kind": "KeyboardInterrupt", "path": "/a", "k": 1})
+    add(doc="unit2", phases=all_unit, workers=1, e=0, fault={"stage": "transport", "kind": "RuntimeError", "path": "/a", "k": 1})
+    add(doc="unit2", workers=1, max_examples=2, e=0, fault={"stage": "check", "kind": "KeyboardInterrupt", "path": "/a", "k": 2})
+    # ... in the stateful phase: first step / second step, transport / hook
+    add(doc="link", phases=["stateful"], workers=1, max_examples=2, e=0, fault={"stage": "transport", "kind": "KeyboardInterrupt", "path": "/users", "k": 1})
+    add(doc="link", phases=["stateful"], workers=1, max_examples=2, e=0, fault={"stage": "transport", "kind": "ConnectionError", "path": "/users/", "k": 1})
+    add(doc="link", phases=["stateful"], workers=1, max_examples=2, e=0, fault={"stage": "before_call", "kind": "RuntimeError", "path": "/users/", "k": 1})
 
 
 def check_item(item: dict, tier: str) -> Result:
@@ -130,6 +172,7 @@ def check_item(item: dict, tier: str) -> Result:
                 res.violation({**base, "kind": kind, **facts}, detail | d, current_item)
             for name, err in r.worker_errors:
                 res.count("worker_thread_died")
+            _round2_counters(item, events, fault_state, res)
         seq = tuple(ee.events_brief(events))
         if seq not in seen_sequences:
             seen_sequences.add(seq)
@@ -149,8 +192,42 @@ def check_item(item: dict, tier: str) -> Result:
     return res
 
 
+def _round2_counters(item: dict, events: list, fault_state: Any, res: Result) -> None:
+    """Coverage counters of the review-round-2 shapes (asserted in vacuity)."""
+    open_scenarios = 0
+    for e in events:
+        n = type(e).__name__
+        if n == "ScenarioStarted":
+            open_scenarios += 1
+        elif n == "ScenarioFinished":
+            open_scenarios -= 1
+            if item["doc"] == "unit2_opbroken_mid" and e.label == "GET /z" and getattr(e.status, "name", "") == "ERROR":
+                res.count("r2_scenario_announced_by_engine_for_unusable_operation")
+        elif n == "NonFatalError" and open_scenarios == 0 and item["workers"] == 1:
+            res.count("r2_error_reported_outside_any_scenario")
+        elif n == "PhaseFinished":
+            reason = getattr(getattr(e.phase, "skip_reason", None), "name", None)
+            if reason == "NOT_APPLICABLE":
+                res.count("r2_enabled_phase_not_applicable")
+            if reason == "FAILURE_LIMIT_REACHED" and e.phase.is_enabled and getattr(getattr(e.phase, "name", None), "name", "") == "STATEFUL_TESTING":
+                res.count("r2_stateful_phase_skipped_by_failure_limit")
+    fault = item.get("fault") or {}
+    if fault_state is not None and fault_state.fired and fault.get("kind") == "KeyboardInterrupt" and fault.get("stage") in ("iterate", "construct"):
+        res.count("r2_user_interrupt_outside_any_scenario")
+    if fault_state is not None and fault_state.fired and fault.get("stage") in ("iterate", "construct", "generate", "before_call", "after_call"):
+        res.count("r2_hook_fault_fired:" + fault["stage"])
+    if item["doc"] in ("one_a", "one_b") and item["workers"] > len(DOC_OPERATIONS[item["doc"]]):
+        res.count("r2_more_workers_than_operations")
+
+
+DOC_OPERATIONS = {"one_a": ["GET /a"], "one_b": ["GET /b"]}
+_R2_KEYS = ["r2_scenario_announced_by_engine_for_unusable_operation", "r2_error_reported_outside_any_scenario", "r2_enabled_phase_not_applicable",
+            "r2_stateful_phase_skipped_by_failure_limit", "r2_user_interrupt_outside_any_scenario", "r2_more_workers_than_operations",
+            *("r2_hook_fault_fired:" + s for s in ("iterate", "construct", "generate", "before_call", "after_call"))]
+
+
 def vacuity(total: Result, tier: str) -> list[str]:
-    out = []
+    out = [f"review-round-2 shape never exercised: {key}" for key in _R2_KEYS if not total.counters.get(key)]
     if len(total.nontrivial) < 10:
         out.append("fewer than 10 distinct interleaved event sequences")
     if not any(env for _, env in total.outcomes):
